@@ -365,10 +365,11 @@ def c02(facts, tier):
     # add/sub back ends: every contribution of the second operand is selected by the subtract flag
     r_modeflag.run(facts, rep, lambda p: facts.items.get(p, {}).get("file") == "src/evaluator.rs", floor=2)
     # BGV correction-factor balancing (and every other place a signed quantity is reduced): the sign is not dropped
-    n = r_contra.run_absmod(facts, rep, {"src/evaluator.rs", "src/util/number_theory.rs", "src/util/scaling_variant.rs"})
+    n = r_contra.run_absmod(facts, rep, None if tier == "thorough" else
+                            {"src/evaluator.rs", "src/util/number_theory.rs", "src/util/scaling_variant.rs"})
     rep.floor("R-CONTRA(absmod)", "reduced magnitudes of signed locals", n, 2)
     # multiply_many: the pairwise product tree stays in bounds for odd operand counts and keeps its products
-    n = r_contra.run_pairwise(facts, rep, {"src/evaluator.rs"})
+    n = r_contra.run_pairwise(facts, rep, None if tier == "thorough" else {"src/evaluator.rs"})
     rep.floor("R-CONTRA(pairs)", "pairwise-consuming loops", n, 2)
     return rep
 
